@@ -1,7 +1,7 @@
 """check C17: template analysis marks exactly the least closed set."""
 import sys
 
-from contracts import c17
+from contracts import c12, c17
 from pyvc import check, vx
 
 
@@ -13,6 +13,15 @@ def main(tier):
         reg.add(c)
     c17.setup_registry(reg)
     rep.add_static(check.run_contracts(cs, reg, 30000 if tier == "quick" else 180000))
+    # the dump pipeline re-adds its built-in helper templates only where the wiki has none (a re-added page loses its
+    # mark and its redirect): the C12 contract of add_default_templates, checked here as well
+    reg2 = vx.Registry()
+    c12.setup_registry(reg2)
+    adt = [c for c in c12.contracts() if c.target == "dumpparser:add_default_templates"]
+    for c in adt:
+        c.prop = "C17"
+        reg2.add(c)
+    rep.add_static(check.run_contracts(adt, reg2, 30000 if tier == "quick" else 180000))
     try:
         rep.bounded = check.run_repo_py("bounded/c17_run.py", {"tier": tier, "seed": rep.seed}, timeout=6000)
     except Exception as ex:
@@ -41,7 +50,7 @@ def main(tier):
         "the pages table is finite: CARD_UNMARKED(M) >= 0, and marking an unmarked template page decreases it by one "
         "(axioms instantiated at set_template_pre_expand); get_all_pages and the classifier's name sets are finite",
     ]
-    return rep.finish(replayer=replay, expected_min_functions=1)
+    return rep.finish(replayer=replay, expected_min_functions=2)
 
 
 def replay(ob):
